@@ -24,6 +24,7 @@ HEAD_EDIT = 3          # bytes cut from / put in front of a FAB header line by H
 PATTERN = [1, 2, 1, 2]
 NF = 2
 FIELDS = ["a", "b"]
+CROWD = 300            # filler boxes of a crowded level (style "crowd")
 
 
 def kinds_set(kinds):
@@ -69,7 +70,7 @@ def idx_range(ap, lv, idx):
         cls = 1 if idx == 91 else 2
         ref = None
         for b, box in enumerate(boxes):
-            if PATTERN[b] == cls:
+            if not box.get("filler") and PATTERN[b] == cls:
                 ref = box
         if ref is None:
             # no box of that class at this level: synthesise one from the first box
@@ -99,11 +100,41 @@ def concretise(chk, sc, cfgseed, ndims, style=None):
         gamma.shift_indices(ap, [[-8, -3, -16], [-4, 0, -1], [5, -2, 0], [1000, 20000, 300000], [-100000, 4096, 65536]][cfgseed % 5])
     d = os.path.join(chk.tmp_reuse(), "p")
     os.makedirs(os.path.dirname(d))
-    reg = gamma.write_plotfile(d, ap, cfg_)
     lv = sc["cl"] - 1
+    nb = len(ap["levels"][lv]["boxes"])
+    # CROWD: the level the model describes shares its binary files with hundreds of further, well-formed boxes (one cell each,
+    # far along the first axis), stored IN FRONT of the modelled FABs of every file: counts pass every small threshold (255 / 256
+    # boxes per file or per task), the modelled FABs stay the last ones of their files, and nothing about the requirement changes
+    nfill = CROWD if style.get("crowd") else 0
+    fill_file = []
+    if nfill:
+        Lc = ap["levels"][lv]
+        used = sorted(set(Lc["file"]))
+        # (inside the domain, which is made longer along the first axis to hold them)
+        w_lv = ap["dom"][0] * 2 ** lv
+        ap["dom"][0] += -(-nfill // 2 ** lv)
+        for i in range(nfill):
+            lo = [w_lv + i] + [0] * (ndims - 1)
+            Lc["boxes"].append({"lo": list(lo), "hi": list(lo), "filler": True})
+            f = used[i % len(used)]
+            fill_file.append(f)
+            Lc["file"].append(f)
+        for f in used:
+            Lc["disk"][str(f)] = [nb + 1 + i for i in range(nfill) if fill_file[i] == f] + list(Lc["disk"][str(f)])
+    reg = gamma.write_plotfile(d, ap, cfg_)
     ldir = os.path.join(d, "Level_%d" % lv)
     L = ap["levels"][lv]
-    nb = len(L["boxes"])
+    prefix = {}
+    fill_off = {}
+    for i in range(nfill):
+        f = fill_file[i]
+        fab = len(gamma.fab_header(L["boxes"][nb + i]["lo"], L["boxes"][nb + i]["hi"], NF)) + 8 * NF
+        fill_off[i] = prefix.get(f, 0)
+        prefix[f] = prefix.get(f, 0) + fab
+    prefix_blob = {}
+    for f, n in prefix.items():
+        with open(os.path.join(ldir, gamma.file_name(f, cfg_)), "rb") as bf:
+            prefix_blob[f] = bf.read(n)
     # keep the min/max tables of the pristine level header
     pristine = open(os.path.join(ldir, "Cell_H")).read()
     mm_tail = pristine[pristine.index("\n\n") + 1:]
@@ -129,7 +160,7 @@ def concretise(chk, sc, cfgseed, ndims, style=None):
     byte_pos = {}
     for f, units in files.items():
         f = int(f)
-        pos = [0]
+        pos = [prefix.get(f, 0)]
         out = []
         i = 0
         while i < len(units):
@@ -179,7 +210,7 @@ def concretise(chk, sc, cfgseed, ndims, style=None):
         byte_pos[f] = pos
         if f not in gone:
             with open(os.path.join(ldir, gamma.file_name(f, cfg_)), "wb") as bf:
-                bf.write(b"".join(out))
+                bf.write(prefix_blob.get(f, b"") + b"".join(out))
 
     # RAGGED ends: a truncation / an extension by ONE unit stands for every length error of at most a unit -- also one of less
     # than a single value (1, 3, 4 or 7 bytes: a short write inside the last float64).  The file is still not what the headers
@@ -217,7 +248,7 @@ def concretise(chk, sc, cfgseed, ndims, style=None):
     z = ",".join("0" for _ in range(ndims))
     with open(os.path.join(ldir, "Cell_H"), "w") as c:
         c.write("1\n1\n%d\n0\n" % st["nfline"])
-        c.write("(%d 0\n" % st["cnt1"])
+        c.write("(%d 0\n" % (st["cnt1"] + nfill))
         for bi, bl in enumerate(st["boxlines"]):
             if bl["k"] == "box":
                 lo, hi = idx_range(ap, lv, bl["idx"])
@@ -232,8 +263,11 @@ def concretise(chk, sc, cfgseed, ndims, style=None):
                          "((%s)(%s) (%s))\n" % (slo, shi, z),
                          "((%s) (%s) (%s))\n" % (slo.replace(",", ";", 1), shi, z),
                          "((%s) (%s) (%s)) 1\n" % (slo, shi, z)][(cfgseed + bi) % 5])
+        for i in range(nfill):
+            bx = L["boxes"][nb + i]
+            c.write("((%s) (%s) (%s))\n" % (",".join(map(str, bx["lo"])), ",".join(map(str, bx["hi"])), z))
         c.write(")\n")
-        c.write("%d\n" % st["cnt2"])
+        c.write("%d\n" % (st["cnt2"] + nfill))
         for k, fl in enumerate(st["fodlines"]):
             if fl["k"] == "fod":
                 ob = off_bytes(fl["file"], fl["off"])
@@ -248,6 +282,8 @@ def concretise(chk, sc, cfgseed, ndims, style=None):
                 c.write("FabOnDisk:%s%s%s%s\n" % (sep, gamma.file_name(fl["file"], cfg_), sep, txt))
             else:
                 c.write("FabOnDisk: Cell_D_00000 12x7\n" if k % 2 == 0 else "FabOnDisk: Cell_D_00000\n")
+        for i in range(nfill):
+            c.write("FabOnDisk: %s %d\n" % (gamma.file_name(fill_file[i], cfg_), fill_off[i]))
         c.write(mm_tail)
     # box bounds contradicting the index ranges (by one cell)
     bad_bounds = [b for b, ok in enumerate(st["bounds_ok"]) if not ok]
@@ -258,7 +294,7 @@ def concretise(chk, sc, cfgseed, ndims, style=None):
         start = None
         for i, ln in enumerate(lines):
             parts = ln.split()
-            if len(parts) == 3 and parts[0] == str(lv) and parts[1] == str(nb) and i + 1 < len(lines) \
+            if len(parts) == 3 and parts[0] == str(lv) and parts[1] == str(nb + nfill) and i + 1 < len(lines) \
                     and lines[i + 1].strip().isdigit() and i > 10:
                 start = i + 2
         if start is None:
